@@ -5,10 +5,12 @@
 import Spec.Judge
 import Spec.Vector
 import Spec.Helpers
+import Spec.Routes
+import Spec.Args
 
 namespace Spec
 
-def handlers : List (String → Req → Option String) := [handleCore, Vector.handle, Helpers.handle]
+def handlers : List (String → Req → Option String) := [handleCore, Vector.handle, Helpers.handle, Routes.handle, Args.handle]
 
 def judgeLine (line : String) : String :=
   let (cmd, r) := parseReq line
